@@ -6,7 +6,8 @@ C18, round 4 (T1b): do the three SGR consumers agree on EVERY parameter list, no
 * `NewStyledString` against them: **no** (`consumers_agree_all_full_fails`).  It agrees on the decidable class `agreeClass`
   (`consumers_agree_on_class`), which contains everything the three producers write (`producers_range_in_class`) and a
   good deal more (unknown codes, ignored sub-parameter counts, complete legacy forms anywhere in a list, a bare 38 at the
-  very end); outside it the two readings differ in seven ways, each with an evaluated witness (`disagreement_witnesses`):
+  very end); outside it the two readings differ in seven ways at the level of parameter lists, each with an evaluated witness
+  (`disagreement_witnesses`), and in two more that exist only in the text (`disagreement_noncanonical_bytes`: `ESC[01;34m`, `ESC[;1m`):
     1. a truncated legacy form — `parseSGR` returns, `NewStyledString` reads the remaining parameters as codes of their own
        (`38;5` is blink, `1;48;2;10;20` — the seeded C18-m6 shape — is bold+dim);
     2. an unknown selector after a bare 38 (`38;7;1`): return vs. reverse+bold;
@@ -15,15 +16,18 @@ C18, round 4 (T1b): do the three SGR consumers agree on EVERY parameter list, no
     5. sub-parameters inside the look-ahead parameters (`38;5:1;7`): index 7 vs. blink+reverse;
     6. `4:k:…` with more than one sub-parameter (`4:3:9`): ignored vs. curly;
     7. anything after a malformed form (`38:3:7;1`): `parseSGR` has returned, `NewStyledString` goes on.
+  Over strings: `string_parsers_agree_on_class` (`ParseStyledString(s)` = `NewStyledString(s)` whenever every sequence is in the class).
   None of these is in the producers' range, so none is a violation of the property text ("every sequence the library
   produces is understood identically", "an arbitrary parameter list never panics"); they are replayed on the real code as
   documentation cases (`corpus/C18/R4-*.ops`).
 -/
 import VaxisModel.Lemmas.SgrAgree
 import VaxisModel.Props.C18
+import VaxisModel.Props.C18Bytes
 
 namespace VaxisModel.Props.C18Agree
 open VaxisModel VaxisModel.Gen VaxisModel.Model.Sgr VaxisModel.Lemmas.Sgr VaxisModel.Lemmas.SgrAgree
+open VaxisModel.Model.SgrBytes VaxisModel.Lemmas.SgrBytes
 
 /-- The two extracted configurations are the same sets of labels, `4:n` sub-labels and per-label sub-parameter counts
     (order of the `case` clauses irrelevant). -/
@@ -92,6 +96,58 @@ example : (match parseSGR {} [[38], [5]], ssSeq {} {} [[38], [5]] with
 -- in the class although malformed or unusual: both ignore / both stop at the end of the list
 example : [[[38]], [[1], [38]], [[38, 2]], [[38, 2, 1, 2]], [[38, 2, 0, 1, 2, 3, 4]], [[4, 9]], [[4, 9, 1]], [[6]], [[21]], [[0]],
     [[1], [38], [5], [200], [3]], [[48], [2], [1], [2], [3], [38], [5], [0]]].all agreeClass = true := by decide
+
+/-! ### Over strings -/
+
+/-- **The two string parsers return the same cells for every string whose SGR sequences are all in the class**
+    (`ParseStyledString(s)` = `NewStyledString(s, Style{}).Cells`, as models over `List Nat`): parameters printed canonically
+    and below 2^63, graphemes self-delimiting for the cluster oracle (`Good`). -/
+theorem string_parsers_agree_on_class (cl : Str → Nat) (ts : List (Tok Seq Str)) (hg : Good cl ts)
+    (hc : ∀ q, Tok.sgr q ∈ ts → agreeClass q = true) :
+    parseStyledB cl (bytesOfToks ts) = newStyledStringB cl {} (bytesOfToks ts) := by
+  obtain ⟨h1, h2⟩ := C18Bytes.consumers_bytes_eq cl {} ts hg
+  rw [h1, h2]
+  have hne : ∀ q, Tok.sgr q ∈ ts → ∀ p ∈ q, p ≠ [] := by
+    intro q hq
+    have : ∀ (l : List (Tok Seq Str)), Good cl l → Tok.sgr q ∈ l → VaxisModel.Lemmas.ParserParams.ParamsOk q := by
+      intro l
+      induction l with
+      | nil => intro _ h; cases h
+      | cons t r ih =>
+        intro hgl hm
+        cases t with
+        | sgr q' =>
+          rcases List.mem_cons.mp hm with h | h
+          · cases h; exact hgl.1
+          · exact ih hgl.2 h
+        | text g =>
+          rcases List.mem_cons.mp hm with h | h
+          · cases h
+          · exact ih hgl.2.2 h
+    intro p hp
+    exact (this ts hg hq p hp).1
+  exact toks_agree parseSGR (ssSeq {}) (fun q => agreeClass q = true)
+    (fun s q h => (consumers_agree_on_class s q h).1) ts {} hc
+    (parseToks_no_error parseSGR (fun s q h => intSgr_ok parseCfg s q h) ts {} hne)
+
+/-! Two more ways of disagreeing that exist only at the byte level (the `[][]int` consumers never see the text):
+    8. numerals that are not canonical — `ESC[01;34m`, what `ls --color` writes: bold blue for `ParseStyledString`, only blue for
+       `NewStyledString` (its `case "1"` is a string comparison);
+    9. empty parameter texts — `ESC[;1m` from a busy pen: reset + bold for `ParseStyledString` (the parser delivers 0 for the
+       empty parameter), only bold for `NewStyledString`. -/
+
+/-- `ESC[01;34m a`. -/
+def exLsColor : Str := [0x1B, 0x5B, 0x30, 0x31, 0x3B, 0x33, 0x34, 0x6D, 0x61]
+/-- `ESC[3m a ESC[;1m b`. -/
+def exEmptyParam : Str := [0x1B, 0x5B, 0x33, 0x6D, 0x61, 0x1B, 0x5B, 0x3B, 0x31, 0x6D, 0x62]
+
+theorem disagreement_noncanonical_bytes :
+    (match parseStyledB (fun _ => 1) exLsColor, newStyledStringB (fun _ => 1) {} exLsColor with
+     | .ok a, .ok b => a.map (·.st.attr) == [2] && b.map (·.st.attr) == [0] && a.map (·.st.fg) == b.map (·.st.fg)
+     | _, _ => false) = true ∧
+    (match parseStyledB (fun _ => 1) exEmptyParam, newStyledStringB (fun _ => 1) {} exEmptyParam with
+     | .ok a, .ok b => a.map (·.st.attr) == [8, 2] && b.map (·.st.attr) == [8, 10]
+     | _, _ => false) = true := by decide
 
 /-- The statement "all three consumers agree on every parameter list". -/
 def consumers_agree_all_full : Prop :=
